@@ -167,7 +167,7 @@ func (fc *FnCtx) unboundAnchors() []string {
 		}
 	}
 	for _, a := range fc.con.Stored {
-		if !has(a.Anchor) {
+		if !has(a.Anchor) || !fc.anchorsDone["storedok:"+a.Anchor] {
 			out = append(out, a.Anchor)
 		}
 	}
